@@ -34,6 +34,24 @@ def getitem(I, st, env, e, frame):
                 out.append((s2, vs))
                 continue
             base = vs[0]
+            seq = None
+            if isinstance(base, TupleV):
+                seq = base.elems
+            elif isinstance(base, Obj) and base.oid in s2.seqs:
+                seq = s2.seqs[base.oid]
+            if seq is not None and all(const_index(x) is not None for x in vs[1:]) and not any(isinstance(x, Star) for x in seq):
+                it0 = iter(vs[1:])
+                lo0 = const_index(next(it0)) if sl.lower is not None else None
+                hi0 = const_index(next(it0)) if sl.upper is not None else None
+                st0 = const_index(next(it0)) if sl.step is not None else None
+                part = tuple(seq)[lo0:hi0:st0]
+                if isinstance(base, TupleV):
+                    out.append((s2, TupleV(part)))
+                else:
+                    noid = s2.new_oid('list', 'slice@%s' % frame.fn.name)
+                    s2.seqs[noid] = tuple(part)
+                    out.append((s2, Obj(noid)))
+                continue
             if isinstance(base, Str) and all(const_index(x) is not None for x in vs[1:]):
                 it = iter(vs[1:])
                 lo = const_index(next(it)) if sl.lower is not None else None
